@@ -15,6 +15,9 @@ pub enum Directive {
     Written(Vec<usize>),
     /// perform the inner write, then never return (the process "crashes" inside the request)
     HangAfterWrite,
+    /// (put only) perform the inner write, raise `reached`, and return only when `gate` is notified:
+    /// keeps the keyspace actor busy inside one request while other messages queue up behind it
+    Gate,
 }
 
 #[derive(Debug, thiserror::Error)]
@@ -24,11 +27,13 @@ pub struct FaultyError(pub String);
 pub struct FaultyStore<S: Storage> {
     pub inner: Arc<S>,
     pub next: Arc<Mutex<Directive>>,
+    pub gate: Arc<tokio::sync::Notify>,
+    pub reached: Arc<std::sync::atomic::AtomicBool>,
 }
 
 impl<S: Storage> FaultyStore<S> {
     pub fn new(inner: Arc<S>) -> Self {
-        Self { inner, next: Arc::new(Mutex::new(Directive::None)) }
+        Self { inner, next: Arc::new(Mutex::new(Directive::None)), gate: Arc::new(tokio::sync::Notify::new()), reached: Arc::new(std::sync::atomic::AtomicBool::new(false)) }
     }
 
     fn take(&self) -> Directive {
@@ -65,7 +70,7 @@ impl<S: Storage> Storage for FaultyStore<S> {
     ) -> Result<(), BulkMutationError<Self::Error>> {
         let keys: Vec<Key> = keys.collect();
         match self.take() {
-            Directive::None => self
+            Directive::None | Directive::Gate => self
                 .inner
                 .remove_tombstones(keyspace, keys.into_iter())
                 .await
@@ -93,6 +98,12 @@ impl<S: Storage> Storage for FaultyStore<S> {
                 hang().await;
                 Ok(())
             },
+            Directive::Gate => {
+                let r = self.inner.put(keyspace, document).await.map_err(wrap);
+                self.reached.store(true, std::sync::atomic::Ordering::SeqCst);
+                self.gate.notified().await;
+                r
+            },
         }
     }
 
@@ -103,7 +114,7 @@ impl<S: Storage> Storage for FaultyStore<S> {
     ) -> Result<(), BulkMutationError<Self::Error>> {
         let docs: Vec<Document> = documents.collect();
         match self.take() {
-            Directive::None => self
+            Directive::None | Directive::Gate => self
                 .inner
                 .multi_put(keyspace, docs.into_iter())
                 .await
@@ -125,7 +136,7 @@ impl<S: Storage> Storage for FaultyStore<S> {
 
     async fn mark_as_tombstone(&self, keyspace: &str, doc_id: Key, timestamp: HLCTimestamp) -> Result<(), Self::Error> {
         match self.take() {
-            Directive::None | Directive::Written(_) => self.inner.mark_as_tombstone(keyspace, doc_id, timestamp).await.map_err(wrap),
+            Directive::None | Directive::Written(_) | Directive::Gate => self.inner.mark_as_tombstone(keyspace, doc_id, timestamp).await.map_err(wrap),
             Directive::Fail => Err(FaultyError("mark_as_tombstone".into())),
             Directive::HangAfterWrite => {
                 let _ = self.inner.mark_as_tombstone(keyspace, doc_id, timestamp).await;
@@ -142,7 +153,7 @@ impl<S: Storage> Storage for FaultyStore<S> {
     ) -> Result<(), BulkMutationError<Self::Error>> {
         let docs: Vec<DocumentMetadata> = documents.collect();
         match self.take() {
-            Directive::None => self
+            Directive::None | Directive::Gate => self
                 .inner
                 .mark_many_as_tombstone(keyspace, docs.into_iter())
                 .await
